@@ -7,6 +7,7 @@ pub mod fuzzdec;
 pub mod gen;
 pub mod interp;
 pub mod light;
+pub mod minibin;
 pub mod model;
 pub mod policy;
 pub mod props;
